@@ -31,6 +31,11 @@ def main():
         assert sh('git', '-C', '/repo', 'status', '--porcelain').stdout.strip() == '', '/repo is not clean'
         r = sh('git', '-C', '/repo', 'apply', str(patch))
         if r.returncode != 0:
+            r = sh('git', '-C', '/repo', 'apply', '--3way', str(patch))
+            if r.returncode != 0 or 'with conflicts' in (r.stderr + r.stdout):
+                sh('git', '-C', '/repo', 'reset', '-q', '--hard')
+                r.returncode = 1
+        if r.returncode != 0:
             out[name] = dict(applies=False, patch=patch.name, error=r.stderr[-300:])
             print(name, 'DOES NOT APPLY')
             continue
